@@ -147,17 +147,20 @@ class GatedLocalProxy(LocalProxy):
         n = self._n
         self._n += 1
         run.rec("issue", func, sid, run.tau_of(sid), n)
+        run.in_flight_mosaik[sid] = run.in_flight_mosaik.get(sid, 0) + 1
         d = run.sched.delay(sid, n, "req")
         if d is not None:
             await run.loop.gate(d, (sid, n, "req"))
         try:
             res = await super().send(request)
         except BaseException as e:
+            run.in_flight_mosaik[sid] -= 1
             run.rec("done_exc", func, sid, n, type(e).__name__)
             raise
         d = run.sched.delay(sid, n, "rep")
         if d is not None:
             await run.loop.gate(d, (sid, n, "rep"))
+        run.in_flight_mosaik[sid] -= 1
         run.rec("done", func, sid, n)
         return res
 
@@ -193,11 +196,14 @@ class RecordingRemoteProxy(_REAL_REMOTE_PROXY):
         n = self._dsim_n
         self._dsim_n += 1
         run.rec("issue", func, sid, run.tau_of(sid), n)
+        run.in_flight_mosaik[sid] = run.in_flight_mosaik.get(sid, 0) + 1
         try:
             res = await super().send(request)
         except BaseException as e:
+            run.in_flight_mosaik[sid] -= 1
             run.rec("done_exc", func, sid, n, type(e).__name__)
             raise
+        run.in_flight_mosaik[sid] -= 1
         run.rec("done", func, sid, n)
         return res
 
